@@ -107,14 +107,15 @@ P = {
  "C12": ("Theorem C12_terminates (closed): for every state (connected or not, any number of queued / unprocessed frames, silent or talking "
          "controller, reconnect chain pending or not, any pending tasks of devices, mixers and thermostats with any indexes) the close() model "
          "returns within the drain bound (20 s) + transport close timeout, leaves no task pending and the transport closed; C12_cancel_all (every "
-         "registered live task is cancelled whatever finished tasks are still registered and in whatever order the set is walked); four refutation "
+         "registered live task is cancelled whatever finished tasks are still registered and in whatever order the set is walked); five refutation "
          "theorems show each pinned behaviour (unbounded join, device shutdown only when connected, index-merged sub-devices, short-circuiting "
-         "cancel_tasks) violates it. Real "
+         "cancel_tasks, tasks cancelled only before the shutdown) violates it. Real "
          "Connection.close() is issued at the end of every prefix of generated histories under the virtual-time loop (quiescent deadlock "
          "detection), observing return, duration, asyncio.all_tasks() afterwards and transport close calls.",
          "partial: the model maps the state read from the implementation just before close() to the outcome; it does not model the interleaving "
          "of close() with a connection loss in progress (such a race, D19, was found by the harness and repaired; D20, close() in the iteration of a "
-         "reconnect hand-over, likewise - its histories are repeated because the walk order of the task set is not controllable)."),
+         "reconnect hand-over, and D22, close() at the instant the read timeout fires, likewise - hand-over histories are repeated because the walk "
+         "order of the task set is not controllable)."),
  "C13": ("Theorems over every operation sequence of the event-manager model (subscribe, subscribe_once, unsubscribe, dispatch tasks, resumption "
          "of suspended callbacks, get with timeout, clock advance; induction with invariants, closed): C13_once (a subscribe_once callback is awaited "
          "at most once), C13_snapshot + C13_spawn_snapshot (every awaited callback belongs to the snapshot its dispatch took when it started, which "
